@@ -13,7 +13,7 @@ the correspondence check of this property on the real tools; see DESIGN.md.
 -/
 namespace Pff.Ecc
 
-open Pff.Layout
+open Pff.Layout Pff.Ecc.B
 
 /-- what C03 needs of hash and codec: lengths, and (only with `--no_fast_check`) that a parity
 just produced passes the check — which is `C11_accepts` for the real codecs -/
@@ -27,7 +27,8 @@ theorem C03_whole_file_partial (O : Ops) (fast : Bool) (thr hashLen mbs : Nat) (
     (hO : CleanOps O hashLen mbs fast) (content : Bytes) :
     correctWholeFile O fast thr kOf hashLen mbs content (genTrack O.H O.enc kOf content) =
       { output := none, corrupted := false, complete := false, partialRep := false } := by
-  sorry
+  exact correctWholeFile_clean O fast thr kOf hashLen mbs content _
+    (whole_gen_clean O fast hashLen mbs kOf hk hpos hO.hashLen hO.encLen hO.accepts content)
 
 theorem C03_header_file_partial (O : Ops) (fast : Bool) (thr k hashLen mbs headerSize : Nat)
     (hk : 1 ≤ k) (hpos : 1 ≤ hashLen + (mbs - k))
@@ -36,10 +37,12 @@ theorem C03_header_file_partial (O : Ops) (fast : Bool) (thr k hashLen mbs heade
         (if 0 < content.length ∧ content.length < headerSize then content.length else headerSize)
         content (genTrackHeader O.H O.enc k headerSize content) =
       { output := none, corrupted := false, complete := false, partialRep := false } := by
-  sorry
+  apply correctHeaderFile_clean
+  rw [assembleHeader_congr_take k hashLen mbs _ headerSize content _ (take_readLen content headerSize)]
+  exact header_gen_clean O fast k hashLen mbs headerSize hk hpos hO.hashLen hO.encLen hO.accepts content
 
 /-- a run in which no file is corrupted exits 0 -/
 theorem C03_exit (rs : List FileResult) (h : ∀ r ∈ rs, r.corrupted = false) : exitStatus rs = 0 := by
-  sorry
+  exact exitStatus_of_none_corrupted rs h
 
 end Pff.Ecc
